@@ -440,6 +440,17 @@ CHECKS += [
          technique="symbolic-outcome branch interpretation of the real rules' circuits on z3 polynomial terms; z3 QF_NRA validity queries over all outcome vectors"),
 ]
 
+CHECKS += [
+    dict(property_id="C25", category="other", engine=E1,
+         text="Partial: (a) fold_global on 3 circuits with SYMBOLIC angles for scale factors 1, 2, 3, 1.5, 2.5, 3.4, 5: z3 proves the folded circuit has the same unitary for all "
+              "angles, the operation count equals the documented formula; (b) insert with 6 position specifications and add_noise with a condition-based noise model: the result "
+              "contains the original operations in order plus the channel exactly at the selected positions (positional model), and with a SYMBOLIC strength the lifted "
+              "default.mixed results equal the noiseless default.qubit results at zero strength for all angles; (c) richardson_extrapolate / poly_extrapolate return the constant "
+              "term of SYMBOLIC polynomial data (|c_k| <= 10) up to 1e-6.",
+         note=PROOF_NOTE + " Category 'other' (partial): exponential_extrapolate (log / exp of solver terms) and mitigate_with_zne on QNodes are outside; positions are compared structurally.",
+         technique="lifted execution of fold_global / insert / the extrapolation fits on z3 terms; z3 QF_NRA equality proofs; structural position comparison"),
+]
+
 _NOT_BUILT = "claimed in DESIGN.md §4 but its solver-based check is not built yet in this tree"
 NOT_APPLICABLE_REASONS = {
     "C04": "equality/hash: Python hash() of concrete payloads and tolerance-based allclose relations; no exact relation a solver can decide",
